@@ -175,6 +175,13 @@ theorem C07_mini_bytes_get {p : Phys.P} (ss : Phys.SS p) {root : List Nat} (hp :
     (Phys.miniBytes p root mids)[j]? = Phys.miniByteAt p root mids j :=
   Phys.miniBytes_get ss hp mids hin j
 
+/-- the range premise of the two theorems above, from what holds in (`C02_minifit_reachable`) and is asserted on
+(`rootCoverB`, phys driver) every lock-step state: every cell of the in-memory MiniFAT — so every id of every
+mini chain — names a mini sector inside the mini stream's chain -/
+theorem C07_mini_range {p : Phys.P} (fit : Phys.MiniFit p) (hc : Phys.rootCoverB p = true) {root : List Nat}
+    (hroot : Phys.chainIds p p.rootStart = .ok root) {m : Nat} (hm : m < p.miniFat.size) : m / p.per < root.length :=
+  Phys.mini_in_root fit hc hroot hm
+
 /-- non-vacuity: a version-3 file whose mini stream is the one-sector chain [2] (eight mini sectors);
 the mini chain [5, 1, 6] of a 150-byte stream, 100 bytes written across two mini-sector boundaries
 at offset 40; the mini chain [0, 7] belongs to another stream.  The write and the read-back are
